@@ -437,6 +437,30 @@ class C06(PropBase):
                             cases.append("|".join(f))
                             dist["by_kind"]["B"] += 1
                             dist["real_walker"] += 1
+        # dereferences whose 64-bit address leaves the 32-bit address space while its low 32 bits fall on readable
+        # stack: the evaluator computes in u64 and the memory lookup takes the u64 address as it is, so such a rule
+        # fails (x86; on the 64-bit architectures the same shapes wrap around 2^64 and are ordinary reads)
+        for arch, d in B.items():
+            spn = {"x86": "$esp", "amd64": "$rsp", "arm64": "sp"}[arch]
+            tgt = d["targets"][0]
+            head0 = d["heads"][0]
+            wide = []
+            for k in ["4294967296", "8589934592", "4294967300", "4294967356", "4294967360", "-4294967296", "-4294967288",
+                      "18446744069414584320", "9223372036854775808", "-9223372036854775808", "4294967292", "12884901896"]:
+                wide += ["%s %s + ^" % (spn, k), "%s %s + ^" % (k, spn), "%s %s - ^" % (spn, k), ".cfa %s + ^" % k,
+                         "%s 8 + %s + ^" % (spn, k), "%s %s + 4294967295 - 1 - ^" % (spn, k)]
+            for e in wide:
+                for valid in d["valids"][:2]:
+                    texts = ["%s %s %s" % (head0, tgt, e),
+                             "%s .ra: %s" % (head0.split(" .ra:")[0], e),
+                             "%s %s %s %s 7" % (head0, tgt, e, d["targets"][1])]
+                    if ".cfa" not in e:
+                        texts.append(".cfa: %s 16 + 0 %s 0 * + + .ra: 1073742080" % (spn, e.replace(" ^", " ^")))
+                    for text in texts:
+                        cases.append("|".join(["B", arch, d["ctx"], valid, str(SP), stack, "0", "4096", text]))
+                        dist["by_kind"]["B"] += 1
+                        dist["real_walker"] += 1
+                        dist["wide_deref"] = dist.get("wide_deref", 0) + 1
         return cases, dist, True
 
     # ------------------------------------------------------------------ oracle
